@@ -338,6 +338,430 @@ theorem create_stores (db : DB) (u c g : Str) (k : Kind) :
   unfold addGrant set
   exact lookup_setLoop_leaf _ _ _ _ _ _ (by simp) (by simp)
 
+/-! ### every created node is linked into its parent -/
+
+/-- the key of the prefix of length `j+1` -/
+def K (full : List Str) (j : Nat) : Str := joinKey (full.take (j+1))
+
+/-- what one round of `setLoop` stores at the current key -/
+def infoAt (leaf : Node) (full : List Str) (db : DB) (i : Nat) : Node :=
+  match lookup db (K full i) with
+  | none => if i + 1 = full.length then leaf else { kind := kindAt i, id := full.getD i [], subs := [], revoked := false }
+  | some old => if i + 1 = full.length then leaf else old
+
+/-- the linking of the current key into its superior -/
+def linkSup (db : DB) (sup : Option Str) (key : Str) : DB :=
+  match sup with
+  | none => db
+  | some sk => match lookup db sk with
+    | none => db
+    | some sn => if isInner sn ∧ ¬ (sn.subs.contains key) then put db sk { sn with subs := sn.subs ++ [key] } else db
+
+theorem setLoop_succ (leaf : Node) (full : List Str) (f i : Nat) (sup : Option Str) (db : DB) :
+    setLoop leaf full (f+1) i sup db =
+      if i ≥ full.length then db
+      else setLoop leaf full f (i+1) (some (K full i)) (put (linkSup db sup (K full i)) (K full i) (infoAt leaf full db i)) := by
+  rfl
+
+theorem lookup_linkSup_other (db : DB) (sup : Option Str) (key x : Str) (hsup : ∀ sk, sup = some sk → x ≠ sk) :
+    lookup (linkSup db sup key) x = lookup db x := by
+  unfold linkSup
+  split
+  · rfl
+  · rename_i sk
+    split
+    · rfl
+    · split
+      · exact lookup_put_ne _ _ _ _ (hsup sk rfl)
+      · rfl
+
+theorem lookup_setLoop_before (leaf : Node) (full : List Str) (x : Str)
+    (fuel i : Nat) (sup : Option Str) (db : DB) (hx : ∀ j, i ≤ j → x ≠ K full j) (hsup : ∀ sk, sup = some sk → x ≠ sk) :
+    lookup (setLoop leaf full fuel i sup db) x = lookup db x := by
+  induction fuel generalizing i sup db with
+  | zero => simp [setLoop]
+  | succ f ih =>
+    rw [setLoop_succ]
+    split
+    · rfl
+    · rw [ih (i+1) _ _ (fun j hj => hx j (by omega)) (fun sk hsk => by cases hsk; exact hx i (Nat.le_refl _))]
+      rw [lookup_put_ne _ _ _ _ (hx i (Nat.le_refl _))]
+      exact lookup_linkSup_other db sup _ x hsup
+
+/-- linking step: an inner superior lists the child afterwards and is still inner -/
+theorem linkSup_result (db : DB) (sk key : Str) (sn : Node) (hl : lookup db sk = some sn) (hin : isInner sn = true) :
+    ∃ sn', lookup (linkSup db (some sk) key) sk = some sn' ∧ isInner sn' = true ∧ key ∈ sn'.subs := by
+  simp only [linkSup, hl]
+  by_cases hc : sn.subs.contains key = true
+  · simp only [hc, not_true_eq_false, and_false, ↓reduceIte]
+    exact ⟨sn, hl, hin, by simpa using hc⟩
+  · simp only [hin, hc, not_false_eq_true, and_self, ↓reduceIte]
+    exact ⟨_, lookup_put_eq _ _ _, by simpa [isInner] using hin, by simp⟩
+
+theorem infoAt_inner (leaf : Node) (full : List Str) (db : DB) (i : Nat) (hlen : full.length ≤ 3) (hlt : i + 1 < full.length)
+    (hinner : ∀ n, lookup db (K full i) = some n → isInner n = true) : isInner (infoAt leaf full db i) = true := by
+  have hne : ¬ (i + 1 = full.length) := by omega
+  unfold infoAt
+  split
+  · simp only [hne, ↓reduceIte]
+    rcases Nat.lt_or_ge i 1 with h0 | h1
+    · have : i = 0 := by omega
+      simp [this, isInner, kindAt]
+    · have : i = 1 := by omega
+      simp [this, isInner, kindAt]
+  · rename_i old hold
+    simp only [hne, ↓reduceIte]
+    exact hinner old hold
+
+theorem setLoop_links (leaf : Node) (full : List Str) (hlen : full.length ≤ 3)
+    (hd : ∀ j1 j2, j1 < full.length → j2 < full.length → j1 ≠ j2 → K full j1 ≠ K full j2)
+    (fuel i : Nat) (sup : Option Str) (db : DB) (hi : i < full.length) (hf : full.length - i ≤ fuel)
+    (hsup : ∀ sk, sup = some sk → 1 ≤ i ∧ sk = K full (i-1) ∧ ∃ sn, lookup db sk = some sn ∧ isInner sn = true)
+    (hinner : ∀ j, i ≤ j → j + 1 < full.length → ∀ n, lookup db (K full j) = some n → isInner n = true) :
+    ∀ j, (sup = none → i ≤ j) → i ≤ j + 1 → j + 1 < full.length →
+      ∃ n, lookup (setLoop leaf full fuel i sup db) (K full j) = some n ∧ isInner n = true ∧ K full (j+1) ∈ n.subs := by
+  induction fuel generalizing i sup db with
+  | zero => omega
+  | succ f ih =>
+    intro j hj0 hj1 hj2
+    rw [setLoop_succ]
+    have hnot : ¬ (i ≥ full.length) := by omega
+    simp only [hnot, ↓reduceIte]
+    by_cases hji : j + 1 = i
+    · -- the superior of this round: linked now, untouched afterwards
+      have hsupsome : ∃ sk, sup = some sk := by
+        cases sup with
+        | none => have := hj0 rfl; omega
+        | some sk => exact ⟨sk, rfl⟩
+      obtain ⟨sk, rfl⟩ := hsupsome
+      obtain ⟨h1, hsk, sn, hsn, hsin⟩ := hsup sk rfl
+      have hjk : K full j = sk := by rw [hsk]; congr 1; omega
+      have hne : K full j ≠ K full i := hd j i (by omega) hi (by omega)
+      -- later rounds only touch keys K j' with j' ≥ i+1 … but only those inside the path matter
+      have hafter : lookup (setLoop leaf full f (i+1) (some (K full i)) (put (linkSup db (some sk) (K full i)) (K full i) (infoAt leaf full db i))) (K full j)
+          = lookup (put (linkSup db (some sk) (K full i)) (K full i) (infoAt leaf full db i)) (K full j) := by
+        -- by induction on the remaining rounds, staying inside the path
+        have gen : ∀ (f' i' : Nat) (sup' : Option Str) (d : DB), i ≤ i' → (∀ s', sup' = some s' → K full j ≠ s') →
+            lookup (setLoop leaf full f' i' sup' d) (K full j) = lookup d (K full j) := by
+          intro f'
+          induction f' with
+          | zero => intro i' sup' d _ _; simp [setLoop]
+          | succ f'' ih' =>
+            intro i' sup' d hii hs'
+            rw [setLoop_succ]
+            split
+            · rfl
+            · rename_i hin'
+              have hi' : i' < full.length := by omega
+              have hne' : K full j ≠ K full i' := hd j i' (by omega) hi' (by omega)
+              rw [ih' (i'+1) _ _ (by omega) (fun s' hs => by cases hs; exact hne')]
+              rw [lookup_put_ne _ _ _ _ hne']
+              exact lookup_linkSup_other d sup' _ _ hs'
+        exact gen f (i+1) _ _ (by omega) (fun s' hs => by cases hs; exact hne)
+      rw [hafter, lookup_put_ne _ _ _ _ hne, hjk]
+      obtain ⟨sn', h1', h2', h3'⟩ := linkSup_result db sk (K full i) sn hsn hsin
+      refine ⟨sn', h1', h2', ?_⟩
+      have : K full (j+1) = K full i := by congr 1
+      rw [this]; exact h3'
+    · -- a later round does it
+      have hij : i ≤ j := by
+        by_cases hs : sup = none
+        · exact hj0 hs
+        · omega
+      have hlt : i + 1 < full.length := by omega
+      have hinfo : isInner (infoAt leaf full db i) = true := infoAt_inner leaf full db i hlen hlt (hinner i (Nat.le_refl _) hlt)
+      apply ih (i+1) (some (K full i)) _ (by omega) (by omega)
+      · intro sk hsk
+        cases hsk
+        exact ⟨by omega, rfl, _, lookup_put_eq _ _ _, hinfo⟩
+      · intro j' hj' hj2' n hn
+        have hne' : K full j' ≠ K full i := hd j' i (by omega) hi (by omega)
+        rw [lookup_put_ne _ _ _ _ hne'] at hn
+        rw [lookup_linkSup_other db sup _ _ (by
+          intro sk hsk
+          obtain ⟨h1, hsk', _⟩ := hsup sk hsk
+          rw [hsk']
+          exact hd j' (i-1) (by omega) (by omega) (by omega))] at hn
+        exact hinner j' (by omega) hj2' n hn
+      · intro h; cases h
+      · omega
+      · exact hj2
+
+/-! ### innerness of the nodes on a short path is kept by `set` with an inner leaf -/
+
+theorem inner_linkSup (db : DB) (sup : Option Str) (key x : Str) (h : ∀ n, lookup db x = some n → isInner n = true) :
+    ∀ n, lookup (linkSup db sup key) x = some n → isInner n = true := by
+  unfold linkSup
+  split
+  · exact h
+  · rename_i sk
+    split
+    · exact h
+    · rename_i sn hsn
+      split
+      · rename_i hc
+        intro n hn
+        by_cases hx : x = sk
+        · subst hx
+          rw [lookup_put_eq] at hn
+          cases hn
+          have := h sn hsn
+          simpa [isInner] using this
+        · rw [lookup_put_ne _ _ _ _ hx] at hn
+          exact h n hn
+      · exact h
+
+theorem inner_setLoop (leaf : Node) (hleaf : isInner leaf = true) (full : List Str) (hlen : full.length ≤ 2) (x : Str)
+    (fuel i : Nat) (sup : Option Str) (db : DB) (h : ∀ n, lookup db x = some n → isInner n = true) :
+    ∀ n, lookup (setLoop leaf full fuel i sup db) x = some n → isInner n = true := by
+  induction fuel generalizing i sup db with
+  | zero => simpa [setLoop] using h
+  | succ f ih =>
+    rw [setLoop_succ]
+    split
+    · exact h
+    · rename_i hi
+      apply ih
+      intro n hn
+      by_cases hx : x = K full i
+      · subst hx
+        rw [lookup_put_eq] at hn
+        cases hn
+        unfold infoAt
+        split
+        · split
+          · exact hleaf
+          · have : i ≤ 1 := by omega
+            rcases Nat.lt_or_ge i 1 with h0 | h1
+            · have : i = 0 := by omega
+              simp [this, isInner, kindAt]
+            · have : i = 1 := by omega
+              simp [this, isInner, kindAt]
+        · rename_i old hold
+          split
+          · exact hleaf
+          · exact h old hold
+      · rw [lookup_put_ne _ _ _ _ hx] at hn
+        exact inner_linkSup db sup _ x h n hn
+
+theorem inner_setupBranch (path : List Str) (hlen : path.length ≤ 2) (x : Str) (fuel i : Nat) (db : DB)
+    (h : ∀ n, lookup db x = some n → isInner n = true) :
+    ∀ n, lookup (setupBranch db path fuel i) x = some n → isInner n = true := by
+  induction fuel generalizing i db with
+  | zero => simpa [setupBranch] using h
+  | succ f ih =>
+    unfold setupBranch
+    split
+    · exact h
+    · rename_i hi
+      simp only
+      apply ih
+      split
+      · exact h
+      · unfold set
+        apply inner_setLoop _ _ _ (by simp; omega) x _ _ _ _ h
+        have : i ≤ 1 := by omega
+        rcases Nat.lt_or_ge i 1 with h0 | h1
+        · have : i = 0 := by omega
+          simp [this, isInner, kindAt]
+        · have : i = 1 := by omega
+          simp [this, isInner, kindAt]
+
+theorem join2_length_cons (a b : Str) (rest : List Str) :
+    (joinKey (a :: b :: rest)).length = a.length + 2 + (joinKey (b :: rest)).length := by
+  simp [joinKey, Split.join2]
+  omega
+
+/-- the three keys of a branch are different strings (each is strictly longer than the one before) -/
+theorem branch_keys_distinct (u c g : Str) :
+    ∀ j1 j2, j1 < [u, c, g].length → j2 < [u, c, g].length → j1 ≠ j2 → K [u, c, g] j1 ≠ K [u, c, g] j2 := by
+  have l0 : (K [u, c, g] 0).length = u.length := by simp [K, joinKey, Split.join2]
+  have l1 : (K [u, c, g] 1).length = u.length + 2 + c.length := by
+    simp only [K, List.take_succ_cons, List.take_zero]
+    rw [join2_length_cons]; simp [joinKey, Split.join2]
+  have l2 : (K [u, c, g] 2).length = u.length + 2 + (c.length + 2 + g.length) := by
+    simp only [K, List.take_succ_cons, List.take_zero]
+    rw [join2_length_cons, join2_length_cons]; simp [joinKey, Split.join2]
+  intro j1 j2 h1 h2 hne heq
+  have hl := congrArg List.length heq
+  simp only [List.length_cons, List.length_nil] at h1 h2
+  have c1 : j1 = 0 ∨ j1 = 1 ∨ j1 = 2 := by omega
+  have c2 : j2 = 0 ∨ j2 = 1 ∨ j2 = 2 := by omega
+  rcases c1 with rfl | rfl | rfl <;> rcases c2 with rfl | rfl | rfl <;>
+    first
+      | exact absurd rfl hne
+      | (rw [l0, l1] at hl; omega) | (rw [l0, l2] at hl; omega) | (rw [l1, l0] at hl; omega)
+      | (rw [l1, l2] at hl; omega) | (rw [l2, l0] at hl; omega) | (rw [l2, l1] at hl; omega)
+
+/-- **every stored node is reachable from its parent (creation).** After a session is created the
+    user node lists the client node and the client node lists the grant — for every identifier
+    string, provided whatever was stored before under the user's and the client's key was a user /
+    client node -/
+theorem create_links (db : DB) (u c g : Str) (k : Kind)
+    (hwf : ∀ j, j < 2 → ∀ n, lookup db (K [u, c, g] j) = some n → isInner n = true) :
+    ∀ j, j + 1 < 3 →
+      ∃ n, lookup (addGrant db u c g k) (K [u, c, g] j) = some n ∧ isInner n = true ∧ K [u, c, g] (j+1) ∈ n.subs := by
+  intro j hj
+  unfold addGrant set
+  simp only
+  have := setLoop_links { kind := k, id := g, subs := [], revoked := false } [u, c, g] (by simp) (branch_keys_distinct u c g)
+    3 0 none (setupBranch db [u, c] 2 0) (by simp) (by simp) (fun sk h => by cases h)
+    (fun j' _ hj' n hn => inner_setupBranch [u, c] (by simp) _ 2 0 db (hwf j' (by simp at hj'; omega)) n hn)
+    j (fun _ => Nat.zero_le _) (Nat.zero_le _) (by simpa using hj)
+  simpa using this
+
+/-! ### removing a session touches the keys of its own branch only, and removes the grant -/
+
+theorem lookup_del_eq (db : DB) (k : Str) : lookup (del db k) k = none := by
+  induction db with
+  | nil => rfl
+  | cons e rest ih =>
+    obtain ⟨k0, n0⟩ := e
+    simp only [del, List.filter] at ih ⊢
+    by_cases hk : k0 = k
+    · subst hk; simpa using ih
+    · simp only [ne_eq, hk, not_false_eq_true, decide_true]
+      simp only [lookup, List.find?] at ih ⊢
+      simp only [hk, decide_false]
+      exact ih
+
+/-- the upward part of `Database.delete` (a subordinate is being unlinked) only writes the keys of the
+    prefixes it still has to visit -/
+theorem lookup_deleteLoop_up (path : List Str) (x : Str)
+    (fuel i : Nat) (hx : ∀ i', i ≤ i' → x ≠ joinKey (path.take (path.length - i')))
+    (s : Str) (db db' : DB) (hd : deleteLoop path fuel i (some s) db = some db') :
+    lookup db' x = lookup db x := by
+  induction fuel generalizing i s db db' with
+  | zero => simp [deleteLoop] at hd; subst hd; rfl
+  | succ f ih =>
+    unfold deleteLoop at hd
+    simp only at hd
+    split at hd
+    · cases hd; rfl
+    · split at hd
+      · exact ih (i+1) (fun i' hi' => hx i' (by omega)) _ _ _ hd
+      · rename_i node _
+        split at hd
+        · simp at hd
+        · split at hd
+          · split at hd
+            · rw [ih (i+1) (fun i' hi' => hx i' (by omega)) _ _ _ hd]
+              exact lookup_del_ne _ _ _ (hx i (Nat.le_refl _))
+            · cases hd
+              exact lookup_put_ne _ _ _ _ (hx i (Nat.le_refl _))
+          · cases hd; rfl
+
+theorem lookup_deleteLoop_up_other (path : List Str) (x : Str) (hx : ∀ m, x ≠ joinKey (path.take m))
+    (fuel i : Nat) (s : Str) (db db' : DB) (hd : deleteLoop path fuel i (some s) db = some db') :
+    lookup db' x = lookup db x :=
+  lookup_deleteLoop_up path x fuel i (fun _ _ => hx _) s db db' hd
+
+theorem joinKey_length_cons_le (a : Str) (rest : List Str) : a.length ≤ (joinKey (a :: rest)).length := by
+  cases rest with
+  | nil => simp [joinKey, Split.join2]
+  | cons b r => rw [join2_length_cons]; omega
+
+/-- a proper prefix of a path has a strictly shorter key (each further component adds the divider) -/
+theorem joinKey_take_lt (path : List Str) (m : Nat) (hm : m < path.length) (hp : 2 ≤ path.length) :
+    (joinKey (path.take m)).length < (joinKey path).length := by
+  induction path generalizing m with
+  | nil => simp at hm
+  | cons a rest ih =>
+    cases rest with
+    | nil => simp at hp
+    | cons b r =>
+      rw [join2_length_cons]
+      cases m with
+      | zero => simp [joinKey, Split.join2]; omega
+      | succ m' =>
+        cases m' with
+        | zero =>
+          simp only [List.take_succ_cons, List.take_zero]
+          simp [joinKey, Split.join2]; omega
+        | succ m'' =>
+          simp only [List.take_succ_cons]
+          rw [join2_length_cons]
+          have hm2 : m'' + 1 < (b :: r).length := by simpa using hm
+          by_cases hr : 2 ≤ (b :: r).length
+          · have := ih (m''+1) hm2 hr
+            simp only [List.take_succ_cons] at this
+            omega
+          · -- b :: r has one element: no proper non-empty prefix beyond it
+            have : r = [] := by
+              cases r with
+              | nil => rfl
+              | cons _ _ => simp at hr
+            subst this
+            simp at hm2
+
+/-- **removal is local.** Removing a session whose leaf is a grant (not a user / client node) leaves
+    every node outside the branch exactly as it was -/
+theorem remove_grant_is_local (db : DB) (path : List Str) (db' : DB) (x : Str)
+    (hx : ∀ m, x ≠ joinKey (path.take m))
+    (hleaf : ∀ n, lookup db (joinKey path) = some n → isInner n = false)
+    (hlen : 2 ≤ path.length) (hd : delete db path = some db') : lookup db' x = lookup db x := by
+  have hdel : delete db path = (if ¬ hasKey db (path.headD []) then some db else
+      if path.length = 1 then deleteSubTree (db.length + 1) db (path.headD []) else deleteLoop path path.length 0 none db) := by
+    cases path with
+    | nil => simp at hlen
+    | cons p0 rest => rfl
+  rw [hdel] at hd
+  split at hd
+  · cases hd; rfl
+  · have hne : ¬ (path.length = 1) := by omega
+    simp only [hne, ↓reduceIte] at hd
+    -- first round: the leaf
+    obtain ⟨f, hf⟩ : ∃ f, path.length = f + 1 := ⟨path.length - 1, by omega⟩
+    rw [hf] at hd
+    unfold deleteLoop at hd
+    simp only at hd
+    have h0 : ¬ (0 ≥ path.length) := by omega
+    simp only [h0, ↓reduceIte, Nat.sub_zero, List.take_length] at hd
+    split at hd
+    · exact lookup_deleteLoop_up_other path x hx _ _ _ _ _ hd
+    · rename_i node hnode
+      have hni : isInner node = false := hleaf node hnode
+      simp only [hni, Bool.false_eq_true, false_and, ↓reduceIte] at hd
+      rw [lookup_deleteLoop_up_other path x hx _ _ _ _ _ hd]
+      have := hx path.length
+      rw [List.take_length] at this
+      exact lookup_del_ne _ _ _ this
+
+/-- **a removed grant is gone.** After removing a session whose leaf is a grant nothing is stored under
+    its key any more — for every identifier string -/
+theorem remove_grant_removes (db : DB) (path : List Str) (db' : DB)
+    (hleaf : ∀ n, lookup db (joinKey path) = some n → isInner n = false)
+    (hpresent : hasKey db (path.headD []) = true)
+    (hlen : 2 ≤ path.length) (hd : delete db path = some db') : lookup db' (joinKey path) = none ∨ lookup db (joinKey path) = none := by
+  have hdel : delete db path = (if ¬ hasKey db (path.headD []) then some db else
+      if path.length = 1 then deleteSubTree (db.length + 1) db (path.headD []) else deleteLoop path path.length 0 none db) := by
+    cases path with
+    | nil => simp at hlen
+    | cons p0 rest => rfl
+  rw [hdel] at hd
+  simp only [hpresent, not_true_eq_false, ↓reduceIte] at hd
+  have hne : ¬ (path.length = 1) := by omega
+  simp only [hne, ↓reduceIte] at hd
+  obtain ⟨f, hf⟩ : ∃ f, path.length = f + 1 := ⟨path.length - 1, by omega⟩
+  rw [hf] at hd
+  unfold deleteLoop at hd
+  simp only at hd
+  have h0 : ¬ (0 ≥ path.length) := by omega
+  simp only [h0, ↓reduceIte, Nat.sub_zero, List.take_length] at hd
+  have hup : ∀ i', 1 ≤ i' → joinKey path ≠ joinKey (path.take (path.length - i')) := by
+    intro i' hi' heq
+    have := joinKey_take_lt path (path.length - i') (by omega) hlen
+    rw [← heq] at this
+    omega
+  split at hd
+  · rename_i hnone; exact Or.inr hnone
+  · rename_i node hnode
+    have hni : isInner node = false := hleaf node hnode
+    simp only [hni, Bool.false_eq_true, false_and, ↓reduceIte] at hd
+    left
+    rw [lookup_deleteLoop_up path (joinKey path) _ 1 hup _ _ _ hd]
+    exact lookup_del_eq _ _
+
 /-- … and every step of every history keeps the flat dictionary's keys unique: one node per path -/
 def runOps (db : DB) : List Op → DB
   | [] => db
